@@ -124,8 +124,19 @@ func vfC01HS(initiator bool, static noise.DHKey, prologue, eseed []byte) (*noise
 	return noise.NewHandshakeState(c)
 }
 
+// vfC01SignOver: the identity signature the library itself produces for (key, static key) - the attacker
+// runs the same software as everybody else, with its own keys
 func vfC01SignOver(k vfC01Key, static []byte) ([]byte, error) {
-	return k.priv.Sign(append([]byte(payloadSigPrefix), static...))
+	vs := &secureSession{localKey: k.priv}
+	p, err := vs.generateHandshakePayload(noise.DHKey{Public: static}, nil)
+	if err != nil {
+		return nil, err
+	}
+	var nhp pb.NoiseHandshakePayload
+	if err := proto.Unmarshal(p, &nhp); err != nil {
+		return nil, err
+	}
+	return nhp.IdentitySig, nil
 }
 
 func vfC01Marshal(idkey, sig []byte) ([]byte, error) {
